@@ -103,7 +103,9 @@ fn rule(
             state.link_level += 1;
             state.pos = result.label_start;
             state.pos_max = result.label_end;
+            state.level += 1;
             state.md.inline.tokenize(state);
+            state.level -= 1;
             state.pos_max = max;
 
             let mut node = std::mem::replace(&mut state.node, old_node);
